@@ -27,6 +27,10 @@ var verifHarnesses = map[string]func(){
 	"VerifC14Reopen":      VerifC14Reopen,
 	"VerifC14Escape":      VerifC14Escape,
 	"VerifC18Drop":        VerifC18Drop,
+	"VerifSysHeal":        VerifSysHeal,
+	"VerifSysTwoDBs":      VerifSysTwoDBs,
+	"VerifC03Instance":    VerifC03Instance,
+	"VerifSysMalformed":   VerifSysMalformed,
 }
 
 // ioReadManifest reads the manifest at the address root and returns the recorded name.
@@ -43,6 +47,12 @@ func ioReadManifest(ctx context.Context, o *orbitDB, a address.Address) (string,
 }
 
 var storeTypes = []string{"eventlog", "keyvalue", "docstore"}
+
+var storeCtors = map[string]iface.StoreConstructor{
+	"eventlog": eventlogstore.NewOrbitDBEventLogStore,
+	"keyvalue": kvstore.NewOrbitDBKeyValue,
+	"docstore": documentstore.NewOrbitDBDocumentStore,
+}
 
 // newInstance creates a real orbitDB instance for peer `name` over stub IPFS
 // (shared DAG = the network), its own directory, stub pubsub and direct channel.
@@ -206,9 +216,32 @@ func VerifC14Reopen() {
 	_, err = p1.Create(ctx, name, typ, &CreateDBOptions{AccessController: acParams(writers), IO: e1.IO, Replicate: &no, Overwrite: &yes})
 	vstub.Assert(err == nil, "C14 creating over an existing local database succeeds when overwrite is requested")
 
-	// a local-only open of a database this peer has never seen is refused
+	// a local-only open of a database this peer has never seen is refused ...
 	_, err = p2.Open(ctx, addr, &CreateDBOptions{LocalOnly: &yes, IO: e1.IO, Replicate: &no})
 	vstub.Assert(err != nil, "C14 a local-only open of an unknown database is refused")
+	// ... also after an ordinary open of it FAILED on this peer (network
+	// unreachable, caller's context cancelled, or store type not registered here)
+	if fk := vstub.NdChoice("failed-open", 4); fk > 0 {
+		var ferr error
+		switch fk {
+		case 1:
+			dag.Offline = true
+			_, ferr = p2.Open(ctx, addr, &CreateDBOptions{IO: e1.IO, Replicate: &no})
+			dag.Offline = false
+		case 2:
+			cctx, cancel := context.WithCancel(ctx)
+			cancel()
+			_, ferr = p2.Open(cctx, addr, &CreateDBOptions{IO: e1.IO, Replicate: &no})
+		case 3:
+			p2.UnregisterStoreType(typ)
+			_, ferr = p2.Open(ctx, addr, &CreateDBOptions{IO: e1.IO, Replicate: &no})
+			p2.RegisterStoreType(typ, storeCtors[typ])
+		}
+		vstub.Assert(ferr != nil, "C14 harness: the open was made to fail")
+		vstub.Cover("open-failed")
+		_, err = p2.Open(ctx, addr, &CreateDBOptions{LocalOnly: &yes, IO: e1.IO, Replicate: &no})
+		vstub.Assert(err != nil, "C14 a local-only open of a database whose earlier open failed is refused (it is still unknown locally)")
+	}
 
 	// opening the address on another peer yields the recorded type and write list
 	st2, err := p2.Open(ctx, addr, &CreateDBOptions{IO: e1.IO, Replicate: &no})
